@@ -436,7 +436,7 @@ func runJoinScenario(t *testing.T, tr *tracer, idx int, seed uint64) {
 		// (a source that is ready long before the destination recomputes its filter several times)
 		var gatedSrv *kv.Server
 		switch x := r.Intn(6); {
-		case x == 0:
+		case x == 0 || x == 5:
 			gatedSrv = w.srcSrv
 		case x <= 2:
 			gatedSrv = w.dstSrv
@@ -482,7 +482,21 @@ func runJoinScenario(t *testing.T, tr *tracer, idx int, seed uint64) {
 				w.observe(false)
 			}
 			tr.line(kv.L("jrelease"))
-			close(gatedSrv.ListGate)
+			if r.Chance(1, 2) {
+				// the held list completes and the destination changes in the same instant: the join becomes ready (its
+				// first Refilter) while destination events are on their way
+				gatedSrv.Freeze()
+				close(gatedSrv.ListGate)
+				for j := inflight(1 + r.Intn(3)); j > 0; j-- {
+					// (at once, or a little later: somewhere along the source's way to readiness and the join's first Refilter)
+					if r.Chance(2, 3) {
+						time.Sleep(time.Duration(r.Intn(1500)) * time.Microsecond)
+					}
+					w.srcEvent(jc.dstKind, w.dstSrv)
+				}
+			} else {
+				close(gatedSrv.ListGate)
+			}
 			settle(&w.hookN)
 			w.observe(false)
 		}
